@@ -90,8 +90,8 @@ U(id="C04.xz.hdrs", props=["C04", "C06", "C02", "C03"], file="xz/reader.rs", ext
              ("src/xz/reader.rs", "parse_flags_and_crc", "StreamHeader")],
   contract="forall 12 bytes: Ok <=> magic, reserved flag byte 0, supported check id, crc field = crc_fn(covered bytes); fields returned verbatim; all 12 bytes consumed")
 
-U(id="C12.xz.pad", props=["C12", "C04", "C06"], file="xz/reader.rs", extra_files=["xz.rs"], harnesses=['c12_xz_next_stream_p0_t12', 'c12_xz_next_stream_p4_t12', 'c12_xz_next_stream_p1_t12', 'c12_xz_next_stream_p2_t12', 'c12_xz_next_stream_p0_t0', 'c12_xz_next_stream_p4_t0', 'c12_xz_next_stream_p4_t5', 'c12_xz_next_stream_p0_t1'],
-  thorough_harnesses=['c12_xz_next_stream_p8_t12', 'c12_xz_next_stream_p3_t12', 'c12_xz_next_stream_p5_t12'],
+U(id="C12.xz.pad", props=["C12", "C04", "C06"], file="xz/reader.rs", extra_files=["xz.rs"], harnesses=['c12_xz_next_valid_p0', 'c12_xz_next_valid_p4', 'c12_xz_next_valid_p8', 'c12_xz_next_valid_p1', 'c12_xz_next_valid_p2', 'c12_xz_next_valid_p3', 'c12_xz_next_valid_p5', 'c12_xz_next_garbage_p0', 'c12_xz_next_garbage_p4', 'c12_xz_next_stream_p0_t0', 'c12_xz_next_stream_p4_t0', 'c12_xz_next_stream_p0_t1'],
+  thorough_harnesses=['c12_xz_next_stream_p0_t12', 'c12_xz_next_stream_p4_t12', 'c12_xz_next_stream_p1_t12', 'c12_xz_next_stream_p2_t12', 'c12_xz_next_stream_p4_t5', 'c12_xz_next_stream_p8_t12', 'c12_xz_next_stream_p3_t12', 'c12_xz_next_stream_p5_t12'],
   functions=[("src/xz/reader.rs", "try_start_next_stream")],
   kind="bounded", bound="padding lengths p in {0..5,8} (the counter is used only mod 4), tail = arbitrary 0/1/5/12 bytes",
   contract="p zero bytes then tail: Ok(true) <=> tail is a valid stream header and p%4==0 (header replaced, block counter reset, exactly p+12 bytes consumed); Ok(false) only at EOF; otherwise Err")
